@@ -648,8 +648,18 @@ def _report(prop, tier, seed, obls, results, known, t_start, write_baseline, onl
                     r["reason"] = f"symbolic path raised {r['exc']} but the concrete replay {c['status']}; engine limitation"
                     undecided.append(r)
                 elif base_prop.get(inst) == "proved":
-                    p = _write_replay(prop, r, "obligation was proved on the baseline tree and is now refuted by the solver; the model did not reproduce in floating point", False)
-                    violations.append((inst, p, " no-failing-input-found"))
+                    # proved on the baseline, refuted now, but the solver's model does not fail on the real code (typically: it assigns values to
+                    # abstracted dependency results): look for a failing input with the enlarged bounded stand-in before reporting without one
+                    case = {k: (tuple(v) if isinstance(v, list) else v) for k, v in r["case"].items()}
+                    br = _run_tasks([(prop, r["obligation"], inst, case, tier, seed, [k["witness"] for k in kf], "boost", None)], 1, lambda t: 3600)
+                    br = list(br)[0]
+                    if br.get("verdict") == "conc-fail":
+                        br["solver_output"] = r.get("solver_output", "")
+                        p = _write_replay(prop, br, "obligation proved on the baseline tree and refuted now; the solver's model did not reproduce, the enlarged bounded stand-in found this failing input on the real uninstrumented code", True)
+                        violations.append((inst, p, ""))
+                    else:
+                        p = _write_replay(prop, r, "obligation was proved on the baseline tree and is now refuted by the solver; neither the model nor the enlarged bounded stand-in gave a failing input on the real code", False)
+                        violations.append((inst, p, " no-failing-input-found"))
                 else:
                     r["verdict"] = "undecided"
                     r["reason"] = "refuted over the reals but the model does not reproduce on the real code"
